@@ -125,6 +125,8 @@ func checkC07(c *Ctx) {
 		close(jobs)
 		wg.Wait()
 	}
+	// siblings derived and used after one of the sink's writes failed, and while reflected context fields overlap
+	jeScenarios(c, "C07")
 	// concurrent first use of a lazy logger: evaluated exactly once
 	runLazyOnce(c, "C07/", func(k string) bool { return k == "lazy/evaluated-twice" || k == "lazy/context" || k == "lazy/entry-missing" })
 	c.Set("histories_replayed", n)
